@@ -390,11 +390,10 @@ func Token(rule interface{}) string {
 		if x.Rule == nil {
 			return fmt.Sprintf("%+v @nil", *x)
 		}
-		c := *x
 		in := *x.Rule
 		in.Id = ""
-		c.Rule = nil
-		return fmt.Sprintf("%+v %+v @%s", in, c, x.Rule.Id)
+		return fmt.Sprintf("%+v {EnableActiveRecovery:%v MaxEjectionPercent:%v RecoveryIntervalMs:%v RecycleIntervalS:%v MaxRecoveryAttempts:%v} @%s", in,
+			x.EnableActiveRecovery, x.MaxEjectionPercent, x.RecoveryIntervalMs, x.RecycleIntervalS, x.MaxRecoveryAttempts, x.Rule.Id)
 	}
 	return fmt.Sprintf("%v", rule)
 }
